@@ -142,3 +142,48 @@ func OkAppendElems() *S {
 	r := withElem([]*S{})
 	return r[0]
 }
+
+func count() int { return len(os.Args) }
+
+// F44 (parallel phis): b receives the OLD a in every iteration; no contract may be inferred for swapIn
+func swapIn(p *S) *S {
+	if p == nil {
+		return nil
+	}
+	var a *S
+	b := p
+	for i := 0; i < count(); i++ {
+		a, b = p, a
+	}
+	return b
+}
+
+// BadF44Swap dereferences swapIn(non-nil), which is nil after one iteration.
+func BadF44Swap() int {
+	r := swapIn(&S{})
+	return r.v
+}
+
+// F44 (stale facts): v is computed again in the second iteration; no contract may be inferred for again
+func again(p *S) *S {
+	if p == nil {
+		return nil
+	}
+	var s *S
+	for {
+		v := g()
+		if s != nil {
+			return v
+		}
+		if v == nil {
+			return p
+		}
+		s = p
+	}
+}
+
+// BadF44Stale dereferences again(non-nil), which is g() of the second iteration.
+func BadF44Stale() int {
+	r := again(&S{})
+	return r.v
+}
